@@ -20,6 +20,7 @@ import (
 
 	"github.com/cosmos/cosmos-sdk/codec"
 	sdk "github.com/cosmos/cosmos-sdk/types"
+	sdkerrors "github.com/cosmos/cosmos-sdk/types/errors"
 	"github.com/ethereum/go-ethereum/common"
 	tmproto "github.com/tendermint/tendermint/proto/tendermint/types"
 
@@ -84,7 +85,6 @@ type Spec struct {
 	Cons    Cons   `json:"cons"`  // consensus state of the creation proposal
 	Steps   []Step `json:"steps"`
 	Tag     string `json:"tag"`
-	Ethash  bool   `json:"ethash"` // tabulate the real seal check for every node (slow)
 }
 
 type ConsObs struct {
@@ -214,21 +214,7 @@ func runCase(e *env, sp Spec) Result {
 	marsh := make([][]byte, len(hs))
 	for i := range hs {
 		res.Parents = append(res.Parents, hlib.Hex(hs[i].ParentHash))
-		o := Oracle{Hash: hlib.Hex(hashes[i]), Ethash: 2}
-		if sp.Ethash && len(hs[i].Bloom) <= 256 {
-			h := hs[i]
-			panicked, _ := hlib.Catch(func() {
-				if ethtypes.VerifyCascadingFields(h) == nil {
-					o.Ethash = 1
-				} else {
-					o.Ethash = 0
-				}
-			})
-			if panicked {
-				o.Ethash = 0
-			}
-		}
-		res.Oracle = append(res.Oracle, o)
+		res.Oracle = append(res.Oracle, Oracle{Hash: hlib.Hex(hashes[i]), Ethash: 2})
 		h := hs[i]
 		bz, err := e.cdc.MarshalInterface(&h)
 		if err != nil {
@@ -256,6 +242,28 @@ func runCase(e *env, sp Spec) Result {
 	if res.Create.Class != 0 {
 		return res
 	}
+	// The real seal check costs seconds (a fresh ethash cache per call), so it is tabulated only for the nodes whose
+	// update was accepted or refused with the eth client's "header invalid" code (the code of a failed seal
+	// check).  The Coq side reports it as a mismatch if the model consults an entry that was not tabulated.
+	needSeal := func(i int, err error) {
+		if sp.ChainID == 4 || res.Oracle[i].Ethash != 2 || len(hs[i].Bloom) > 256 {
+			return
+		}
+		if err != nil {
+			space, code, _ := sdkerrors.ABCIInfo(err, false)
+			if !(space == ethtypes.ErrHeader.Codespace() && code == ethtypes.ErrHeader.ABCICode()) {
+				return
+			}
+		}
+		h := hs[i]
+		v := 0
+		hlib.Catch(func() {
+			if ethtypes.VerifyCascadingFields(h) == nil {
+				v = 1
+			}
+		})
+		res.Oracle[i].Ethash = v
+	}
 	for _, st := range sp.Steps {
 		if st.N < 0 || st.N >= len(hs) {
 			res.Obs = append(res.Obs, Obs{Class: 1, Err: "no such node"})
@@ -272,6 +280,9 @@ func runCase(e *env, sp Spec) Result {
 				err = e.k.UpdateClient(cctx, name, &hdr)
 			}
 		})
+		if !panicked {
+			needSeal(st.N, err)
+		}
 		var o Obs
 		switch {
 		case panicked:
